@@ -53,7 +53,8 @@ func (r *ReplayerImpl) Replay(transactionGroup []byte) error {
 			return errors.Wrap(err, "failed to convert WTSet to CSM")
 		}
 
-		err = r.writeFunc(csm, wtsets[0].RecordType == io.VARIABLE)
+		// a transaction group can carry fixed and variable-length write sets: each is written as what it is
+		err = r.writeFunc(csm, wtSet.RecordType == io.VARIABLE)
 		if err != nil {
 			return errors.Wrap(err, fmt.Sprintf("failed to WriteCSM. csm:%v", csm))
 		}
@@ -145,8 +146,11 @@ func serializeVariableRecords(epoch time.Time, intervalsPerDay uint32, wtSet *wa
 	// 1 record size = 8byte(Epoch) + columns + intervalTicks(4byte) = 8byte(Epoch) + VariableLengthRecord
 	cursor := 0
 	for i := 0; i < numRows; i++ {
-		// serialize Epoch (variable length records in a WTSet have the same Epoch value)
-		buf, err = io.Serialize(buf[:cursor], epoch.Unix())
+		// the record's time is the interval start plus its interval ticks: the ticks carry whole
+		// seconds as well as the sub-second part, so the Epoch is computed per record
+		recTicks := io.ToUInt32(payload[(i+1)*varRecLen-IntervalTicksBytes : (i+1)*varRecLen])
+		second, _ := executor.GetTimeFromTicks(uint64(epoch.Unix()), intervalsPerDay, recTicks)
+		buf, err = io.Serialize(buf[:cursor], int64(second))
 		if err != nil {
 			return nil, errors.Wrap(err, "failed to serialize Epoch to buffer:"+epoch.String())
 		}
